@@ -353,4 +353,54 @@ theorem expireFo_sorted (now : Int) (l : List Event)
       exact ih hp.2
 
 
+/-- what is true of the file whenever no save is pending -/
+def LoopInv (s : Loop) : Prop :=
+  s.armed = false →
+    match s.since with
+    | none => ∀ u, s.file u = (s.m u).map DL.snapshot
+    | some t => ∀ u, s.m u = (s.file u).map (loadList t)
+
+theorem loopInv_init : LoopInv Loop.init := by
+  intro _; intro u; rfl
+
+theorem loopInv_step (s : Loop) (op : LoopOp) (h : LoopInv s) : LoopInv (loopStep s op) := by
+  cases op with
+  | record u e => intro ha; cases ha
+  | query => exact h
+  | tick =>
+    show LoopInv (if s.armed then _ else s)
+    by_cases ha : s.armed = true
+    · rw [if_pos ha]; intro _; intro u; rfl
+    · rw [if_neg ha]; exact h
+  | restart now => intro _; intro u; rfl
+
+theorem loopInv_run (ops : List LoopOp) (s : Loop) (h : LoopInv s) : LoopInv (loopRun s ops) := by
+  induction ops generalizing s with
+  | nil => exact h
+  | cons op r ih => exact ih _ (loopInv_step s op h)
+
+theorem minCreate_mono (t now : Int) (h0 : (retention : Int) ≤ t) (h1 : t ≤ now) (h2 : now < 9223372036854775808) :
+    minCreate t ≤ minCreate now := by
+  unfold minCreate
+  rw [Int.emod_eq_of_lt (by omega) (by unfold retention KM.Gen.recorderLoadRetentionSeconds at *; omega),
+      Int.emod_eq_of_lt (by omega) (by unfold retention KM.Gen.recorderLoadRetentionSeconds at *; omega)]
+  omega
+
+theorem filter_keep_keep (t now : Int) (l : List Event) (h0 : (retention : Int) ≤ t) (h1 : t ≤ now)
+    (h2 : now < 9223372036854775808) : (l.filter (keep t)).filter (keep now) = l.filter (keep now) := by
+  rw [List.filter_filter]
+  apply List.filter_congr
+  intro e _
+  have := minCreate_mono t now h0 h1 h2
+  by_cases hk : keep now e = true
+  · have : keep t e = true := by
+      simp only [keep, decide_eq_true_eq] at hk ⊢; omega
+    simp [hk, this]
+  · simp [hk]
+
+theorem loadList_snapshot (now : Int) (saved : List Event) : (loadList now saved).snapshot = saved.filter (keep now) := by
+  have := (loadList_aux now saved DL.empty).1
+  simpa [loadList, DL.snapshot, DL.empty] using this
+
+
 end KM.Events
